@@ -15,6 +15,14 @@ pub struct StageReport {
 
 thread_local! {
     static STAGE: std::cell::Cell<&'static str> = const { std::cell::Cell::new("start") };
+    /// called when a solver stage is about to start (the C18 worker tells its parent, so that a
+    /// process that dies or goes silent inside a solver is known to have been there)
+    static ANNOUNCE: std::cell::Cell<Option<fn(&'static str)>> = const { std::cell::Cell::new(None) };
+}
+
+#[allow(dead_code)]
+pub fn set_stage_announcer(f: Option<fn(&'static str)>) {
+    ANNOUNCE.with(|a| a.set(f));
 }
 
 fn stage(name: &'static str) {
@@ -23,6 +31,11 @@ fn stage(name: &'static str) {
         eprintln!("[{:?}] {name}", std::time::SystemTime::now().duration_since(std::time::UNIX_EPOCH).map(|d| d.as_millis() % 100000).unwrap_or(0));
     }
     STAGE.with(|s| s.set(name));
+    if matches!(name, "simplex" | "auto_solver") {
+        if let Some(f) = ANNOUNCE.with(|a| a.get()) {
+            f(name);
+        }
+    }
 }
 
 pub fn run_stages(src: &str) -> StageReport {
